@@ -77,6 +77,30 @@ def load_factor() -> float:
         return 1.0
 
 
+def _solve_z3_cli(smt: str, timeout_ms: int):
+    """The stand-alone z3 5.1 binary on the same text (its default strategy differs from the Python API's solver object
+    with a `timeout` parameter: it decides some quantified queries the API call gives up on, and vice versa)."""
+    import shutil
+    t0 = time.time()
+    exe = shutil.which("z3-new")
+    if not exe:
+        return "unknown", "z3-new missing", "", 0.0
+    with tempfile.NamedTemporaryFile("w", suffix=".smt2", delete=False) as f:
+        f.write(smt)
+        path = f.name
+    try:
+        p = subprocess.run([exe, f"-T:{max(1, timeout_ms // 1000)}", path], capture_output=True, text=True, timeout=timeout_ms / 1000 + 5)
+        out = p.stdout.strip().splitlines()
+        res = out[0] if out else "unknown"
+        if res not in ("sat", "unsat"):
+            res = "unknown"
+        return res, "z3 cli: " + (out[0] if out else ""), "", time.time() - t0
+    except subprocess.TimeoutExpired:
+        return "unknown", "timeout", "", time.time() - t0
+    finally:
+        os.unlink(path)
+
+
 def solve_one(task):
     """task = (name, smt, timeout_ms, use_cvc5[, first[, seed]]) -> dict; ``first`` = "cvc5" runs cvc5 before z3
     (obligations that cvc5 decided when the baseline was recorded: z3's time limit would only be waited out);
@@ -85,10 +109,19 @@ def solve_one(task):
     name, smt, timeout_ms, use_cvc5 = task[:4]
     first = task[4] if len(task) > 4 else "z3"
     seed = task[5] if len(task) > 5 else 0
+    if seed == -1:
+        res, reason, model, dt = _solve_z3_cli(smt, timeout_ms)
+        return dict(name=name, result=res, reason=reason, model=model, backend="z3-cli", time=round(dt, 3))
     if seed:
         res, reason, model, dt = _solve_z3(smt, timeout_ms, seed)
-        return dict(name=name, result=res, reason=reason, model=model, backend="z3", time=round(dt, 3))
+        return dict(name=name, result=res, reason=reason, model=model, backend=f"z3-seed{seed}", time=round(dt, 3))
     total = 0.0
+    if first == "z3-cli" or first.startswith("z3-seed"):
+        # the variant that decided this obligation when the baseline was recorded goes first
+        r0 = _solve_z3_cli(smt, timeout_ms) if first == "z3-cli" else _solve_z3(smt, timeout_ms, int(first[7:]))
+        total += r0[3]
+        if r0[0] in ("unsat", "sat"):
+            return dict(name=name, result=r0[0], reason=r0[1], model=r0[2], backend=first, time=round(total, 3))
     if first == "cvc5" and use_cvc5:
         r2, reason2, _, dt2 = _solve_cvc5(smt, timeout_ms)
         total += dt2
@@ -124,6 +157,10 @@ def solve_all(tasks, workers=None):
     with ProcessPoolExecutor(max_workers=workers) as ex:
         futs = {ex.submit(solve_one, t): t[0] for t in tasks}
         for f in as_completed(futs):
-            r = f.result()
+            try:
+                r = f.result()
+            except Exception as e:  # a worker died (the pool is then broken for the rest): undecided here, asked again later
+                n = futs[f]
+                r = dict(name=n, result="unknown", reason=f"solver worker failed: {type(e).__name__}: {e}"[:300], model="", backend="z3", time=0.0)
             out[r["name"]] = r
     return out
